@@ -350,9 +350,22 @@ class CallMixin:
         st.env = env
         sub = Cx(defcx.mod, cls=defcx.cls, fn=qn, spec=cx.spec, pre=cx.pre, contract=self.reg.contracts.get(qn), closure=f.env,
                  depth=cx.depth + 1, acc=[], self_val=defcx.self_val, fn_node=fn)
+        # a local closure of a function under contract runs under that contract's ghost anchors; ghost variables live in the caller's frame
+        sub.ghost_contract = cx.contract or cx.ghost_contract
+        gnames = set()
+        if sub.ghost_contract is not None:
+            for gl in list(sub.ghost_contract.ghost_init or []) + [x for v in (sub.ghost_contract.ghost or {}).values() for x in v]:
+                gnames.add(gl.split("=", 1)[0].strip())
+            for g in gnames:
+                if g in caller_env and g not in st.env:
+                    st.env[g] = caller_env[g]
         outs = []
         for s, oc in self.exec_block(fn.body, st, sub):
-            s.env = dict(caller_env)
+            back = dict(caller_env)
+            for g in gnames:
+                if g in s.env:
+                    back[g] = s.env[g]
+            s.env = back
             outs.append((s, oc[1] if oc[0] == "return" else VNone()))
         for r in sub.acc:
             r.st.env = dict(caller_env)
